@@ -7,10 +7,7 @@ import ALV.Lemmas.C20Basic
 namespace ALV.C20
 variable {K : Type} [Field K]
 
-/-- window recursion: `w` holds the last `size` samples (oldest first) -/
-def mavgFrom (size : Nat) : List K → List K → List K
-  | _, [] => []
-  | w, x :: xs => (sumL (w.drop 1 ++ [x]) / (size : K)) :: mavgFrom size (w.drop 1 ++ [x]) xs
+/- `mavgFrom` (the window recursion) is defined in `ALV.Spec.C20`. -/
 
 theorem mavgFrom_eq (size : Nat) (hs : 0 < size) (xs : List K) :
     ∀ pre : List K, size ≤ pre.length →
@@ -174,6 +171,18 @@ theorem accumulateFunc_eq (xs : List K) : accumulateFunc xs = accSpec xs := by
       List.map_map]
     congr 1
     simp
+
+/-- the running-sum recursion of the specification is the closed form -/
+theorem accSpecRec_eq (xs : List K) : accSpecRec xs = accSpec xs := by
+  have hl : ∀ (ys : List K) (s : K), accFrom s ys = accLoop s ys := by
+    intro ys
+    induction ys with
+    | nil => intro s; rfl
+    | cons y t ih => intro s; simp only [accFrom, accLoop, ih]
+  have h := accLoop_eq xs []
+  simp only [sumL_nil, List.nil_append] at h
+  unfold accSpecRec accSpec
+  rw [hl, h]
 
 theorem accZLoop_eq (xs : List K) : ∀ (s : FState K) (acc : K), s.d = [] → s.m = [acc] →
     floop [1] [-1] s xs = accLoop acc xs := by
